@@ -310,6 +310,64 @@ UNITS = {
 }
 
 
+# ------------------------------------------------------------------------------------------------------------- the from_* converters
+# What the command-line tool calls to turn a NumPy pre- / post-processor or computer into its torch module: the module is built from
+# exactly the source object's coefficient (Dither, Preemphasize) or from the source object itself (post-processor wrapper, SI computer) -
+# nothing else is read or defaulted; and forward() of the two pre-processor modules is the functional with the module's own coefficient.
+class _ClsCallable(symex.PyCallable):
+    def __init__(self):
+        symex.PyCallable.__init__(self, lambda ev, args, kwargs, node: ("constructed", tuple(args), tuple(sorted(kwargs.items()))))
+
+
+def _conv_setup(arg_name, coeff):
+    def setup(ex, st):
+        src = api.mk_obj(st, arg_name, "Source", {"coeff": api.sym("source_coeff", "real")} if coeff else {})
+        st.env["cls"] = _ClsCallable()
+        ex.ctx = dict(src=src, coeff=coeff, arg=arg_name)
+    return setup
+
+
+def _conv_contract(fn, coeff):
+    def ok(ev, res):
+        c = ev.ex.ctx
+        if not (isinstance(res, tuple) and res[0] == "constructed" and len(res[1]) == 1 and res[2] == ()):
+            return False
+        a = res[1][0]
+        if c["coeff"]:
+            return symex.is_z3(a) and simp(a == ev.st.fields[(c["arg"], "coeff")]) is True
+        return a is c["src"]
+    return Contract(target=f"torch:{fn}", uses=["A-PYSEM"], consts={"OK": SpecFn(ok)}, ensures=[("module_built_from_the_source_and_nothing_else", "OK(result)")])
+
+
+def _fwd_setup(ex, st):
+    api.mk_obj(st, "self", "Module", {"coeff": api.sym("module_coeff", "real")})
+    st.env["sig"] = Opaque("SIG", "tensor")
+    ex.ctx = {}
+
+
+def _fwd_contract(fn, functional):
+    def h(ex, st, args, kwargs, node, ev):
+        return ("functional", tuple(args), tuple(sorted(kwargs.items())))
+
+    def ok(ev, res):
+        return (isinstance(res, tuple) and res[0] == "functional" and len(res[1]) == 2 and res[1][0] is ev.st.env["sig"] and res[2] == ()
+                and symex.is_z3(res[1][1]) and simp(res[1][1] == ev.st.fields[("self", "coeff")]) is True)
+    return Contract(target=f"torch:{fn}", uses=["A-PYSEM"], consts={"OK": SpecFn(ok)}, handlers={functional: h},
+                    ensures=[("forward_is_the_functional_with_the_modules_coefficient", "OK(result)")])
+
+
+UNITS.update({
+    "from_dither": ("PyTorchDither.from_dither", lambda: _conv_contract("PyTorchDither.from_dither", True), _conv_setup("dither", True)),
+    "from_preemphasize": ("PyTorchPreemphasize.from_preemphasize", lambda: _conv_contract("PyTorchPreemphasize.from_preemphasize", True), _conv_setup("preemphasize", True)),
+    "from_postprocessor": ("PyTorchPostProcessorWrapper.from_postprocessor", lambda: _conv_contract("PyTorchPostProcessorWrapper.from_postprocessor", False),
+                           _conv_setup("postprocessor", False)),
+    "from_si": ("PyTorchShortIntegrationFrameComputer.from_si_frame_computer", lambda: _conv_contract("PyTorchShortIntegrationFrameComputer.from_si_frame_computer", False),
+                _conv_setup("si_frame_computer", False)),
+    "dither_forward": ("PyTorchDither.forward", lambda: _fwd_contract("PyTorchDither.forward", "pytorch_dither"), _fwd_setup),
+    "preemph_forward": ("PyTorchPreemphasize.forward", lambda: _fwd_contract("PyTorchPreemphasize.forward", "pytorch_preemphasize"), _fwd_setup),
+})
+
+
 def generate(prop, which):
     from contracts.registry import run_contract
     fn, mk, setup = UNITS[which]
